@@ -280,10 +280,14 @@ Sel == IF Listed = {} THEN "off" ELSE mode
 
 -----------------------------------------------------------------------------
 (* Actions                                                                 *)
+\* what the validation step does (mutants: no validation; a verdict remembered per selector across the blocks)
+Rejects == CASE Mutant = "skip_validation" -> FALSE
+             [] Mutant = "memo_selector"   -> DupVersion \/ \E e \in entries : IsBad(e) /\ ~\E d \in entries : d.blk < e.blk /\ d.pkg = e.pkg /\ d.m = e.m
+             [] OTHER                      -> Bad
 Validate == /\ phase = "validate"
-            /\ phase' = IF Bad /\ Mutant # "skip_validation" THEN "failed"
+            /\ phase' = IF Rejects THEN "failed"
                         ELSE IF Sel = "prune" THEN "reach" ELSE "closed"
-            /\ reach' = IF Bad \/ Sel # "prune" THEN {} ELSE (IF Mutant = "whole_service" THEN {n \in RpcNames(g) : SvcOf(g, n) \in {SvcOf(g, m) : m \in Listed \cap RpcNames(g)}} ELSE Listed)
+            /\ reach' = IF Rejects \/ Sel # "prune" THEN {} ELSE (IF Mutant = "whole_service" THEN {n \in RpcNames(g) : SvcOf(g, n) \in {SvcOf(g, m) : m \in Listed \cap RpcNames(g)}} ELSE Listed)
             /\ rank' = [x \in reach' |-> 0]
             /\ UNCHANGED <<g, entries, mode, up, rankUp, step>>
 
